@@ -91,11 +91,27 @@ def _run(a, pid, ctx):
         return rc
     except core.MachineryError as ex:
         print("MACHINERY-FAILURE property=%s %s" % (pid, ex))
-        return 2
+        return _partial(ctx)
     except Exception:
         traceback.print_exc()
         print("MACHINERY-FAILURE property=%s unexpected exception" % pid)
-        return 2
+        return _partial(ctx)
+
+
+def _partial(ctx):
+    """the machinery failed part-way: violations established before that point (each has a concrete failing case against the real
+    code) are still reported and decide the exit status; with none, exit 2."""
+    if getattr(ctx, "violations", None):
+        try:
+            ctx.note("explanation", "run aborted by a machinery failure after violations had been established; counts are incomplete")
+            ctx.states = ctx.states or 1
+            ctx.transitions = ctx.transitions or 1
+            rc = ctx.finish()
+            if rc == 1:
+                return 1
+        except Exception:  # noqa
+            traceback.print_exc()
+    return 2
 
 
 if __name__ == "__main__":
